@@ -2576,6 +2576,14 @@ impl DcpsDomainParticipant {
 
         let prefix = Guid::from(<[u8; 16]>::from(*handle)).prefix();
 
+        // Forget the endpoints of the participant so that they are not matched again
+        self.domain_participant
+            .discovered_reader_list
+            .retain(|x| x.dds_subscription_data.key().value[..12] != prefix);
+        self.domain_participant
+            .discovered_writer_list
+            .retain(|x| x.dds_publication_data.key().value[..12] != prefix);
+
         for subscriber in &mut self.domain_participant.user_defined_subscriber_list {
             for data_reader in &mut subscriber.data_reader_list {
                 // Remove samples
@@ -2593,24 +2601,32 @@ impl DcpsDomainParticipant {
                     data_reader
                         .transport_reader
                         .delete_matched_writer(key.into());
+                    // Keep the matched list and the subscription matched status in step
+                    data_reader.remove_matched_publication(&InstanceHandle::new(key));
                 }
             }
         }
 
         for publisher in &mut self.domain_participant.user_defined_publisher_list {
             for data_writer in &mut publisher.data_writer_list {
-                for matched_subscription in &data_writer.matched_subscription_list {
-                    if matched_subscription.key.value[..12] == prefix {
-                        // Remove readers
-                        data_writer
-                            .writer
-                            .transport_writer
-                            .delete_matched_reader(matched_subscription.key.value.into());
-                    }
-                }
-                data_writer
+                let removed_reader_guids: Vec<_> = data_writer
                     .matched_subscription_list
-                    .retain(|subscription| subscription.key.value[..12] != prefix);
+                    .iter()
+                    .filter(|m| m.key.value[..12] == prefix)
+                    .map(|m| m.key.value)
+                    .collect();
+                for key in removed_reader_guids {
+                    // Remove readers
+                    data_writer
+                        .writer
+                        .transport_writer
+                        .delete_matched_reader(key.into());
+                    // Keep the matched list and the publication matched status in step
+                    data_writer.remove_matched_subscription(&InstanceHandle::new(key));
+                    data_writer
+                        .status_condition
+                        .add_communication_state(StatusKind::PublicationMatched);
+                }
             }
         }
 
